@@ -1,3 +1,344 @@
 import MgModel.C12.Ciphers
+/-!
+# C12 — lemmas about the mode loops (parametric in the block function)
+-/
 namespace MgProof.C12
+open MgModel.C12
+
+/-! ## xorBytes -/
+
+theorem xorBytes_length (a b : Bytes) : (xorBytes a b).length = min a.length b.length := by
+  simp [xorBytes]
+
+theorem xorBytes_cancel : ∀ (a b : Bytes), a.length ≤ b.length → xorBytes (xorBytes a b) b = a
+  | [], _, _ => by simp [xorBytes]
+  | _ :: _, [], h => by simp at h
+  | a :: as, b :: bs, h => by
+    have := xorBytes_cancel as bs (by simpa using h)
+    simp [xorBytes] at this ⊢
+    refine ⟨?_, this⟩
+    rw [BitVec.xor_assoc]; simp
+
+theorem xorBytes_comm (a b : Bytes) : xorBytes a b = xorBytes b a := by
+  induction a generalizing b with
+  | nil => cases b <;> simp [xorBytes]
+  | cons x xs ih =>
+    cases b with
+    | nil => simp [xorBytes]
+    | cons y ys =>
+      have := ih ys
+      simp [xorBytes] at this ⊢
+      exact ⟨BitVec.xor_comm _ _, this⟩
+
+/-- `a ⊕ (a ⊕ b) = b` -/
+theorem xorBytes_cancel_left (a b : Bytes) (h : b.length ≤ a.length) :
+    xorBytes a (xorBytes a b) = b := by
+  rw [xorBytes_comm a b, xorBytes_comm a, xorBytes_cancel b a h]
+
+theorem xorBytes_append (a₁ a₂ b₁ b₂ : Bytes) (h : a₁.length = b₁.length) :
+    xorBytes (a₁ ++ a₂) (b₁ ++ b₂) = xorBytes a₁ b₁ ++ xorBytes a₂ b₂ := by
+  simp [xorBytes, List.zipWith_append h]
+
+/-! ## chunks -/
+
+theorem chunksAux_cons (n : Nat) (hn : 0 < n) (a rest : Bytes) (ha : a.length = n) :
+    ∀ fuel, rest.length ≤ fuel → chunksAux n (fuel + 1) (a ++ rest) = a :: chunksAux n fuel rest := by
+  intro fuel _
+  cases a with
+  | nil => simp at ha; omega
+  | cons x xs =>
+    simp only [List.cons_append, chunksAux]
+    have h1 : (x :: (xs ++ rest)).take n = x :: xs := by
+      rw [← List.cons_append, List.take_append_of_le_length (by simp [ha])]
+      simp [← ha]
+    have h2 : (x :: (xs ++ rest)).drop n = rest := by
+      rw [← List.cons_append, List.drop_append_of_le_length (by simp [ha])]
+      simp [← ha]
+    rw [h1, h2]
+
+/-- more fuel than bytes changes nothing -/
+theorem chunksAux_fuel2 (n : Nat) (hn : 0 < n) : ∀ (f1 f2 : Nat) (l : Bytes), l.length ≤ f1 →
+    l.length ≤ f2 → chunksAux n f1 l = chunksAux n f2 l := by
+  intro f1
+  induction f1 with
+  | zero =>
+    intro f2 l h _
+    have : l = [] := by simpa using h
+    subst this
+    cases f2 <;> rfl
+  | succ f ih =>
+    intro f2 l h1 h2
+    cases l with
+    | nil => cases f2 <;> rfl
+    | cons x xs =>
+      cases f2 with
+      | zero => simp at h2
+      | succ g =>
+        have hd : ((x :: xs).drop n).length ≤ xs.length := by simp; omega
+        simp only [chunksAux]
+        rw [ih g ((x :: xs).drop n) (by simp at h1 hd ⊢; omega) (by simp at h2 hd ⊢; omega)]
+
+theorem chunksAux_fuel (n : Nat) (hn : 0 < n) (fuel : Nat) (l : Bytes) (h : l.length ≤ fuel) :
+    chunksAux n fuel l = chunksAux n l.length l :=
+  chunksAux_fuel2 n hn fuel l.length l h (Nat.le_refl _)
+
+theorem chunks_cons (n : Nat) (hn : 0 < n) (a rest : Bytes) (ha : a.length = n) :
+    chunks n (a ++ rest) = a :: chunks n rest := by
+  unfold chunks
+  have : (a ++ rest).length = (rest.length + (n - 1)) + 1 := by simp [ha]; omega
+  rw [this, chunksAux_cons n hn a rest ha _ (by omega), chunksAux_fuel n hn _ rest (by omega)]
+
+theorem chunks_nil (n : Nat) : chunks n [] = [] := rfl
+
+/-- a buffer whose length is a multiple of `n` splits into a first block and a rest
+that is again a multiple -/
+theorem split_block (n : Nat) (hn : 0 < n) (l : Bytes) (hl : l.length % n = 0) (hne : l ≠ []) :
+    ∃ a rest, l = a ++ rest ∧ a.length = n ∧ rest.length % n = 0 ∧ rest.length < l.length := by
+  have hlen : n ≤ l.length := by
+    have : 0 < l.length := List.length_pos_iff.mpr hne
+    rcases Nat.lt_or_ge l.length n with h | h
+    · rw [Nat.mod_eq_of_lt h] at hl; omega
+    · exact h
+  refine ⟨l.take n, l.drop n, (List.take_append_drop n l).symm, by simp; omega, ?_, by simp; omega⟩
+  simp only [List.length_drop]
+  have := Nat.sub_mod_eq_zero_of_mod_eq (m := l.length) (n := n) (k := n) (by simp [hl])
+  simpa using this
+
+/-- induction principle: buffers that are a whole number of blocks -/
+theorem blocks_induction (n : Nat) (hn : 0 < n) (P : Bytes → Prop) (h0 : P [])
+    (hstep : ∀ a rest, a.length = n → rest.length % n = 0 → P rest → P (a ++ rest)) :
+    ∀ l : Bytes, l.length % n = 0 → P l := by
+  have key : ∀ k : Nat, ∀ l : Bytes, l.length = k → l.length % n = 0 → P l := by
+    intro k
+    induction k using Nat.strongRecOn with
+    | ind k ih =>
+      intro l hk hl
+      by_cases hne : l = []
+      · subst hne; exact h0
+      · obtain ⟨a, rest, rfl, ha, hr, hlt⟩ := split_block n hn l hl hne
+        exact hstep a rest ha hr (ih rest.length (by omega) rest rfl hr)
+  intro l hl
+  exact key l.length l rfl hl
+
+theorem chunks_flatten (n : Nat) (hn : 0 < n) (l : Bytes) (hl : l.length % n = 0) :
+    (chunks n l).flatten = l := by
+  refine blocks_induction n hn (fun l => (chunks n l).flatten = l) rfl ?_ l hl
+  intro a rest ha _ ih
+  simp [chunks_cons n hn a rest ha, ih]
+
+theorem chunks_all_len (n : Nat) (hn : 0 < n) (l : Bytes) (hl : l.length % n = 0) :
+    ∀ c ∈ chunks n l, c.length = n := by
+  refine blocks_induction n hn (fun l => ∀ c ∈ chunks n l, c.length = n) (by simp [chunks_nil]) ?_ l hl
+  intro a rest ha _ ih c hc
+  rw [chunks_cons n hn a rest ha] at hc
+  rcases List.mem_cons.mp hc with rfl | h
+  · exact ha
+  · exact ih c h
+
+theorem chunks_append (n : Nat) (hn : 0 < n) (a b : Bytes) (ha : a.length % n = 0) :
+    chunks n (a ++ b) = chunks n a ++ chunks n b := by
+  refine blocks_induction n hn (fun a => chunks n (a ++ b) = chunks n a ++ chunks n b) (by simp [chunks_nil]) ?_ a ha
+  intro x rest hx _ ih
+  rw [List.append_assoc, chunks_cons n hn x _ hx, chunks_cons n hn x _ hx, ih]
+  rfl
+
+/-- cutting a list of full blocks back into blocks gives the list -/
+theorem chunks_of_flatten (n : Nat) (hn : 0 < n) : ∀ (bl : List Bytes), (∀ b ∈ bl, b.length = n) →
+    chunks n bl.flatten = bl
+  | [], _ => rfl
+  | b :: bl, h => by
+    rw [List.flatten_cons, chunks_cons n hn b _ (h b (by simp)),
+      chunks_of_flatten n hn bl (fun c hc => h c (by simp [hc]))]
+
+theorem flatten_len_mod (n : Nat) : ∀ (bl : List Bytes), (∀ b ∈ bl, b.length = n) →
+    bl.flatten.length % n = 0
+  | [], _ => by simp
+  | b :: bl, h => by
+    have := flatten_len_mod n bl (fun c hc => h c (by simp [hc]))
+    rw [List.flatten_cons, List.length_append, h b (by simp), Nat.add_mod_left]
+    exact this
+
+/-! ## ECB -/
+
+theorem ecbLoop_append (F : Bytes → Bytes) (bs : Nat) (hbs : 0 < bs) (a b : Bytes)
+    (ha : a.length % bs = 0) : ecbLoop F bs (a ++ b) = ecbLoop F bs a ++ ecbLoop F bs b := by
+  simp [ecbLoop, chunks_append bs hbs a b ha]
+
+theorem ecbLoop_length (F : Bytes → Bytes) (bs : Nat) (hbs : 0 < bs)
+    (hF : ∀ b, b.length = bs → (F b).length = bs) (l : Bytes) (hl : l.length % bs = 0) :
+    (ecbLoop F bs l).length = l.length := by
+  refine blocks_induction bs hbs (fun l => (ecbLoop F bs l).length = l.length) (by simp [ecbLoop, chunks_nil]) ?_ l hl
+  intro a rest ha hr ih
+  rw [ecbLoop_append F bs hbs a rest (by simp [ha])]
+  have : ecbLoop F bs a = F a := by
+    have := chunks_cons bs hbs a [] ha
+    simp [chunks_nil] at this
+    simp [ecbLoop, this]
+  simp [this, hF a ha, ha, ih]
+
+theorem ecbLoop_block (F : Bytes → Bytes) (bs : Nat) (hbs : 0 < bs) (a : Bytes) (ha : a.length = bs) :
+    ecbLoop F bs a = F a := by
+  have := chunks_cons bs hbs a [] ha
+  simp [chunks_nil] at this
+  simp [ecbLoop, this]
+
+theorem ecbLoop_roundtrip (E D : Bytes → Bytes) (bs : Nat) (hbs : 0 < bs)
+    (hE : ∀ b, b.length = bs → (E b).length = bs)
+    (hDE : ∀ b, b.length = bs → D (E b) = b) (l : Bytes) (hl : l.length % bs = 0) :
+    ecbLoop D bs (ecbLoop E bs l) = l := by
+  refine blocks_induction bs hbs (fun l => ecbLoop D bs (ecbLoop E bs l) = l) (by simp [ecbLoop, chunks_nil]) ?_ l hl
+  intro a rest ha hr ih
+  rw [ecbLoop_append E bs hbs a rest (by simp [ha]), ecbLoop_block E bs hbs a ha,
+    ecbLoop_append D bs hbs _ _ (by simp [hE a ha]), ecbLoop_block D bs hbs _ (hE a ha), hDE a ha, ih]
+
+/-! ## CBC -/
+
+theorem cbcEncBlocks_append (F : Bytes → Bytes) (xs ys : List Bytes) : ∀ iv,
+    cbcEncBlocks F iv (xs ++ ys) =
+      ((cbcEncBlocks F iv xs).1 ++ (cbcEncBlocks F (cbcEncBlocks F iv xs).2 ys).1,
+       (cbcEncBlocks F (cbcEncBlocks F iv xs).2 ys).2) := by
+  induction xs with
+  | nil => intro iv; simp [cbcEncBlocks]
+  | cons x xs ih => intro iv; simp [cbcEncBlocks, ih]
+
+theorem cbcDecBlocks_append (F : Bytes → Bytes) (xs ys : List Bytes) : ∀ iv,
+    cbcDecBlocks F iv (xs ++ ys) =
+      ((cbcDecBlocks F iv xs).1 ++ (cbcDecBlocks F (cbcDecBlocks F iv xs).2 ys).1,
+       (cbcDecBlocks F (cbcDecBlocks F iv xs).2 ys).2) := by
+  induction xs with
+  | nil => intro iv; simp [cbcDecBlocks]
+  | cons x xs ih => intro iv; simp [cbcDecBlocks, ih]
+
+/-- the model's CBC encryption loop is SP 800-38A §6.2 -/
+theorem cbcEnc_eq_spec (E : Bytes → Bytes) : ∀ (blocks : List Bytes) (iv : Bytes),
+    (cbcEncBlocks E iv blocks).1 = (Spec.cbcEnc E iv blocks).flatten
+  | [], _ => rfl
+  | p :: ps, iv => by
+    simp [cbcEncBlocks, Spec.cbcEnc, xorBytes_comm iv p, cbcEnc_eq_spec E ps]
+
+theorem cbcDec_eq_spec (D : Bytes → Bytes) : ∀ (blocks : List Bytes) (iv : Bytes),
+    (cbcDecBlocks D iv blocks).1 = (Spec.cbcDec D iv blocks).flatten
+  | [], _ => rfl
+  | c :: cs, iv => by
+    simp [cbcDecBlocks, Spec.cbcDec, cbcDec_eq_spec D cs]
+
+/-- the ciphertext blocks of a CBC encryption all have the block length -/
+theorem specCbcEnc_len (E : Bytes → Bytes) (bs : Nat)
+    (hE : ∀ b, b.length = bs → (E b).length = bs) : ∀ (blocks : List Bytes) (iv : Bytes),
+    iv.length = bs → (∀ b ∈ blocks, b.length = bs) → ∀ c ∈ Spec.cbcEnc E iv blocks, c.length = bs
+  | [], _, _, _ => by simp [Spec.cbcEnc]
+  | p :: ps, iv, hiv, h => by
+    have hp := h p (by simp)
+    have hc : (E (xorBytes p iv)).length = bs := hE _ (by simp [xorBytes_length, hp, hiv])
+    intro c hcm
+    simp only [Spec.cbcEnc, List.mem_cons] at hcm
+    rcases hcm with rfl | hcm
+    · exact hc
+    · exact specCbcEnc_len E bs hE ps _ hc (fun b hb => h b (by simp [hb])) c hcm
+
+/-- block-level CBC round trip, with the final chaining value -/
+theorem specCbc_roundtrip (E D : Bytes → Bytes) (bs : Nat)
+    (hE : ∀ b, b.length = bs → (E b).length = bs)
+    (hDE : ∀ b, b.length = bs → D (E b) = b) : ∀ (blocks : List Bytes) (iv : Bytes),
+    iv.length = bs → (∀ b ∈ blocks, b.length = bs) →
+    Spec.cbcDec D iv (Spec.cbcEnc E iv blocks) = blocks
+  | [], _, _, _ => rfl
+  | p :: ps, iv, hiv, h => by
+    have hp := h p (by simp)
+    have hx : (xorBytes p iv).length = bs := by simp [xorBytes_length, hp, hiv]
+    simp only [Spec.cbcEnc, Spec.cbcDec]
+    rw [hDE _ hx, xorBytes_cancel p iv (by omega),
+      specCbc_roundtrip E D bs hE hDE ps _ (hE _ hx) (fun b hb => h b (by simp [hb]))]
+
+/-! ## CFB / OFB / CTR: chunking -/
+
+theorem cfbLoop_append (F : Bytes → Bytes) (bs : Nat) (enc : Bool) (xs ys : Bytes) : ∀ s,
+    cfbLoop F bs enc s (xs ++ ys) =
+      ((cfbLoop F bs enc s xs).1 ++ (cfbLoop F bs enc (cfbLoop F bs enc s xs).2 ys).1,
+       (cfbLoop F bs enc (cfbLoop F bs enc s xs).2 ys).2) := by
+  induction xs with
+  | nil => intro s; simp [cfbLoop]
+  | cons x xs ih => intro s; simp [cfbLoop, ih]
+
+theorem ofbLoop_append (F : Bytes → Bytes) (bs : Nat) (xs ys : Bytes) : ∀ s,
+    ofbLoop F bs s (xs ++ ys) =
+      ((ofbLoop F bs s xs).1 ++ (ofbLoop F bs (ofbLoop F bs s xs).2 ys).1,
+       (ofbLoop F bs (ofbLoop F bs s xs).2 ys).2) := by
+  induction xs with
+  | nil => intro s; simp [ofbLoop]
+  | cons x xs ih => intro s; simp [ofbLoop, ih]
+
+theorem ctrLoop_append (F : Bytes → Bytes) (bs : Nat) (xs ys : Bytes) : ∀ s,
+    ctrLoop F bs s (xs ++ ys) =
+      ((ctrLoop F bs s xs).1 ++ (ctrLoop F bs (ctrLoop F bs s xs).2 ys).1,
+       (ctrLoop F bs (ctrLoop F bs s xs).2 ys).2) := by
+  induction xs with
+  | nil => intro s; simp [ctrLoop]
+  | cons x xs ih => intro s; simp [ctrLoop, ih]
+
+/-! ## CFB / OFB / CTR: decryption inverts encryption, from ANY state, and ends in the same state -/
+
+theorem cfbLoop_roundtrip (F : Bytes → Bytes) (bs : Nat) (xs : Bytes) : ∀ s,
+    cfbLoop F bs false s (cfbLoop F bs true s xs).1 = (xs, (cfbLoop F bs true s xs).2) := by
+  induction xs with
+  | nil => intro s; simp [cfbLoop]
+  | cons x xs ih =>
+    intro s
+    have h1 : (cfbByte F bs false s (cfbByte F bs true s x).2).1 = (cfbByte F bs true s x).1 := by
+      simp [cfbByte]
+    have h2 : (cfbByte F bs false s (cfbByte F bs true s x).2).2 = x := by
+      simp [cfbByte, BitVec.xor_assoc]
+    simp [cfbLoop, h1, h2, ih]
+
+/-- and the other way round: encrypting what CFB decryption produced gives the input back -/
+theorem cfbLoop_roundtrip' (F : Bytes → Bytes) (bs : Nat) (xs : Bytes) : ∀ s,
+    cfbLoop F bs true s (cfbLoop F bs false s xs).1 = (xs, (cfbLoop F bs false s xs).2) := by
+  induction xs with
+  | nil => intro s; simp [cfbLoop]
+  | cons x xs ih =>
+    intro s
+    have h1 : (cfbByte F bs true s (cfbByte F bs false s x).2).1 = (cfbByte F bs false s x).1 := by
+      simp [cfbByte, BitVec.xor_assoc]
+    have h2 : (cfbByte F bs true s (cfbByte F bs false s x).2).2 = x := by
+      simp [cfbByte, BitVec.xor_assoc]
+    simp [cfbLoop, h1, h2, ih]
+
+theorem ofbLoop_roundtrip (F : Bytes → Bytes) (bs : Nat) (xs : Bytes) : ∀ s,
+    ofbLoop F bs s (ofbLoop F bs s xs).1 = (xs, (ofbLoop F bs s xs).2) := by
+  induction xs with
+  | nil => intro s; simp [ofbLoop]
+  | cons x xs ih =>
+    intro s
+    have h1 : (ofbByte F bs s (ofbByte F bs s x).2).1 = (ofbByte F bs s x).1 := by simp [ofbByte]
+    have h2 : (ofbByte F bs s (ofbByte F bs s x).2).2 = x := by simp [ofbByte, BitVec.xor_assoc]
+    simp [ofbLoop, h1, h2, ih]
+
+theorem ctrLoop_roundtrip (F : Bytes → Bytes) (bs : Nat) (xs : Bytes) : ∀ s,
+    ctrLoop F bs s (ctrLoop F bs s xs).1 = (xs, (ctrLoop F bs s xs).2) := by
+  induction xs with
+  | nil => intro s; simp [ctrLoop]
+  | cons x xs ih =>
+    intro s
+    have h1 : (ctrByte F bs s (ctrByte F bs s x).2).1 = (ctrByte F bs s x).1 := by simp [ctrByte]
+    have h2 : (ctrByte F bs s (ctrByte F bs s x).2).2 = x := by simp [ctrByte, BitVec.xor_assoc]
+    simp [ctrLoop, h1, h2, ih]
+
+theorem cfbLoop_length (F : Bytes → Bytes) (bs : Nat) (enc : Bool) (xs : Bytes) : ∀ s,
+    (cfbLoop F bs enc s xs).1.length = xs.length := by
+  induction xs with
+  | nil => intro s; simp [cfbLoop]
+  | cons x xs ih => intro s; simp [cfbLoop, ih]
+
+theorem ofbLoop_length (F : Bytes → Bytes) (bs : Nat) (xs : Bytes) : ∀ s,
+    (ofbLoop F bs s xs).1.length = xs.length := by
+  induction xs with
+  | nil => intro s; simp [ofbLoop]
+  | cons x xs ih => intro s; simp [ofbLoop, ih]
+
+theorem ctrLoop_length (F : Bytes → Bytes) (bs : Nat) (xs : Bytes) : ∀ s,
+    (ctrLoop F bs s xs).1.length = xs.length := by
+  induction xs with
+  | nil => intro s; simp [ctrLoop]
+  | cons x xs ih => intro s; simp [ctrLoop, ih]
+
 end MgProof.C12
